@@ -6,7 +6,7 @@
    CBC on every run (harness/c04.py, structural tie).  The rule invariants below hold for EVERY feasible point [x] of it,
    for any number of candidate alleles, variants, sites, copies and read modes; selectors: [kA a] allele copy a selected,
    [kK a m] definition variant m kept on a, [kN a m] variant m added to a, [kPH a ri] read mode ri assigned to a. *)
-From Aldy Require Import Base Consts Lp MinorModel MinorSpec MinorProofs MinorPointProofs MinorSpecPointProofs Consts_here Consts_wf Exprs_cov Tied_cov_minor.
+From Aldy Require Import Base Consts Lp MinorModel MinorSpec MinorProofs MinorPointProofs MinorSpecPointProofs MinorNoiseFreeProofs Consts_here Consts_wf Exprs_cov Tied_cov_minor.
 Open Scope Q_scope.
 
 Theorem C04_consts_here_wf : consts_wf here = true.
@@ -252,3 +252,48 @@ Theorem C04_tie_single_copy : forall cov total pcn, Qltb 0 pcn = true ->
 Proof. exact single_copy_minor_tied. Qed.
 Goal True. idtac "ASSUME C04_tie_single_copy". Abort.
 Print Assumptions C04_tie_single_copy.
+
+(* ---- the noise-free clause: "on noise-free evidence the reported alleles reproduce the planted variants with multiplicity
+   and without additions or losses".  Noise-free = some admissible assignment b over the instance's copies (the planted one)
+   scores 0 under the model objective; then EVERY minimiser of the ILP denotes an admissible assignment that explains every
+   variant count and every reference count exactly (so carries each variant as often as b does), drops nothing and adds
+   nothing.  Any number of candidates, copies, variants, sites, read modes. ---- *)
+Theorem C04_minor_noise_free : forall c i, 0 < c_minor_tie_den c -> 0 < c_minor_vnewor_div c -> 0 < i_miss i -> 0 < i_add i -> 0 <= i_phase i ->
+  forall b q0 x, inst_wf i = true -> over_copies i b -> admissible i b = true -> score c i true b = Some q0 -> q0 == 0 ->
+  feasible (gen c i) x -> (forall y, feasible (gen c i) y -> objective (gen c i) x <= objective (gen c i) y) ->
+  let a := point_asg i x in
+  objective (gen c i) x == 0 /\ admissible i a = true /\
+  (forall m, In m (i_muts i) -> carriers a m == obs_mut m /\ carriers a m == carriers b m) /\
+  (forall s, In s (i_sites i) -> exp_ref i a (s_pos s) == obs_site s) /\
+  dropped i a == 0 /\
+  (forall am, In am (new_pairs i) -> is_added a am = false).
+Proof. exact minor_noise_free. Qed.
+Goal True. idtac "ASSUME C04_minor_noise_free". Abort.
+Print Assumptions C04_minor_noise_free.
+
+(* the same from ONE decidable premise (MinorSpec.noise_free_b, evaluated by the harness on every noise-free case it generates):
+   the planted copies, given as (candidate id, copy index, kept ids, added ids) *)
+Theorem C04_minor_noise_free_b : forall c i l x, noise_free_b c i l = true ->
+  feasible (gen c i) x -> (forall y, feasible (gen c i) y -> objective (gen c i) x <= objective (gen c i) y) ->
+  let a := point_asg i x in let b := solver_asg i l in
+  objective (gen c i) x == 0 /\ admissible i a = true /\
+  (forall m, In m (i_muts i) -> carriers a m == obs_mut m /\ carriers a m == carriers b m) /\
+  (forall s, In s (i_sites i) -> exp_ref i a (s_pos s) == obs_site s) /\
+  dropped i a == 0 /\
+  (forall am, In am (new_pairs i) -> is_added a am = false).
+Proof. exact minor_noise_free_b. Qed.
+Goal True. idtac "ASSUME C04_minor_noise_free_b". Abort.
+Print Assumptions C04_minor_noise_free_b.
+
+(* an assignment of score 0 (or less) has every part of the score at 0 *)
+Theorem C04_zero_score_parts : forall c i, 0 < c_minor_tie_den c -> 0 < c_minor_vnewor_div c -> 0 < i_miss i -> 0 < i_add i -> 0 <= i_phase i ->
+  forall asg q, score c i true asg = Some q -> q <= 0 ->
+  q == 0 /\ (forall m, In m (i_muts i) -> carriers asg m == obs_mut m) /\
+  (forall s, In s (i_sites i) -> exp_ref i asg (s_pos s) == obs_site s) /\ dropped i asg == 0 /\
+  (forall am, In am (new_pairs i) -> is_added asg am = false).
+Proof. exact zero_score_parts. Qed.
+Goal True. idtac "ASSUME C04_zero_score_parts". Abort.
+Print Assumptions C04_zero_score_parts.
+
+Example C04_noise_free_example : noise_free_b here witness_p witness_p_solver = true.
+Proof. exact noise_free_example. Qed.
